@@ -569,19 +569,20 @@ class SsdpSearchResponder:
             )
         elif search_target == SSDP_ST_ROOTDEVICE:
             responses.append(self._build_response_rootdevice())
-        elif matched_devices := self.device.get_devices_matching_udn(search_target):
+        else:
+            # Answer for every match: a search target can name a device (UDN),
+            # a device type and a service type at the same time.
             responses.extend(
-                self._build_responses_device_udn(device) for device in matched_devices
+                self._build_responses_device_udn(device)
+                for device in self.device.get_devices_matching_udn(search_target)
             )
-        elif matched_devices := self._matched_devices_by_type(search_target):
             responses.extend(
                 self._build_responses_device_type(device, search_target)
-                for device in matched_devices
+                for device in self._matched_devices_by_type(search_target)
             )
-        elif matched_services := self._matched_services_by_type(search_target):
             responses.extend(
                 self._build_responses_service(service, search_target)
-                for service in matched_services
+                for service in self._matched_services_by_type(search_target)
             )
 
         if self.options.get(SSDP_SEARCH_RESPONDER_OPTION_ALWAYS_REPLY_WITH_ROOT_DEVICE):
